@@ -68,3 +68,31 @@ LEMMAS = [
     ('eq-sensitive-to-charge', 'forall(lambda a=Annotation, b=Annotation: implies(a._charge != b._charge, not a.__eq__(b)))'),
     ('eq-sensitive-to-presence', 'forall(lambda a=Annotation, b=Annotation: implies((a._nterm_mods is None) != (b._nterm_mods is None), not a.__eq__(b)))'),
 ]
+
+# ---------------------------------------------------------------- create_annotation (C20: "building an annotation from the field dictionary of another gives an
+# equal annotation"): every field of the new annotation is the NORMALISED input of that name; the three input normalisers (Mod objects stay, texts /
+# numbers become Mod objects) enter as callees; a lemma puts it together for inputs that are already another annotation's fields
+IC = 'peptacular.proforma.input_convert:'
+C[IC + 'fix_list_of_mods'] = dict(params=dict(mods='ModList'), returns='ModList', pure=True, trusted=True,
+                                  bounded_by='input normalisation of a list of modifications: bounded/C20.py, bounded/C13.py', ensures=[])
+C[IC + 'fix_dict_of_mods'] = dict(params=dict(mods='Dict[int,ModList]'), returns='Dict[int,ModList]', pure=True, trusted=True,
+                                  bounded_by='input normalisation of a position -> modifications dictionary: bounded/C20.py', ensures=[])
+C[IC + 'fix_intervals_input'] = dict(params=dict(intervals='List[Interval]'), returns='List[Interval]', pure=True, trusted=True,
+                                     bounded_by='input normalisation of a list of intervals: bounded/C20.py', ensures=[])
+_CA_FIELDS = ('isotope_mods', 'static_mods', 'labile_mods', 'unknown_mods', 'nterm_mods', 'cterm_mods')
+_CA_PARAMS = dict(sequence='str')
+for _f in _CA_FIELDS:
+    _CA_PARAMS[_f] = 'Optional[ModList]'
+_CA_PARAMS.update(internal_mods='Optional[Dict[int,ModList]]', intervals='Optional[List[Interval]]', charge='Optional[int]', charge_adducts='Optional[ModList]')
+C['peptacular.proforma.proforma_parser:create_annotation'] = dict(
+    params=_CA_PARAMS, returns='Annotation', pure=True, raises={},
+    ensures=[('residues', 'result._sequence == sequence'), ('charge', 'result._charge == charge')] +
+            [('%s-is-the-normalised-input' % f, 'result._%s == (None if %s is None else fix_list_of_mods(some(%s)))' % (f, f, f)) for f in _CA_FIELDS + ('charge_adducts',)] +
+            [('internal_mods-is-the-normalised-input', 'result._internal_mods == (None if internal_mods is None else fix_dict_of_mods(some(internal_mods)))'),
+             ('intervals-is-the-normalised-input', 'result._intervals == (None if intervals is None else fix_intervals_input(some(intervals)))')])
+_NORMAL = ' and '.join('(a._%s is None or fix_list_of_mods(some(a._%s)) == some(a._%s))' % (f, f, f) for f in _CA_FIELDS + ('charge_adducts',)) + \
+    ' and (a._internal_mods is None or fix_dict_of_mods(some(a._internal_mods)) == some(a._internal_mods))' \
+    ' and (a._intervals is None or fix_intervals_input(some(a._intervals)) == some(a._intervals))'
+LEMMAS.append(('rebuilt-from-its-own-fields-is-equal',
+               'forall(lambda a=Annotation: implies(' + _NORMAL + ', create_annotation(a._sequence, ' + ', '.join('a._%s' % f for f in _CA_FIELDS) +
+               ', a._internal_mods, a._intervals, a._charge, a._charge_adducts).__eq__(a)))'))
